@@ -259,16 +259,16 @@ func runC07Accum(c *Ctx) {
 		c.anchorMissing("(*RuleExpression).checkExprsIn")
 		return
 	}
-	calls := findCalls(fn, "(*RuleExpression).checkSemantics")
-	if len(calls) != 1 {
-		c.bad("(*RuleExpression).checkExprsIn|scan of placeholders", fn.Pos(), fmt.Sprintf("%d calls of checkSemantics", len(calls)))
+	sites := parseSites(p, fn)
+	if len(sites) != 1 || sites[0].text == nil || sites[0].col == nil {
+		c.bad("(*RuleExpression).checkExprsIn|scan of placeholders", fn.Pos(), fmt.Sprintf("%d places where the text of a placeholder is parsed with a known text and column", len(sites)))
 		return
 	}
-	call := calls[0]
-	args := call.Common().Args // rule, s, line, col, ...
+	call := sites[0].call
+	colArg := sites[0].col
 	// the string passed: a chain of slicings of the parameter s; collect the lows sliced off along the loop
 	// loop-carried string phi
-	strArg := args[1]
+	strArg := sites[0].text
 	slX, cut1, ok := suffixView(strArg) // cut1: bytes cut before this placeholder's text
 	if !ok {
 		c.bad("(*RuleExpression).checkExprsIn|text handed to the parser", call.Pos(), "the placeholder text is not a suffix slice of the scalar")
@@ -281,14 +281,24 @@ func runC07Accum(c *Ctx) {
 	}
 	// the column argument
 	var counted []ssa.Value
-	colForm := linOfChars(args[3], 0, &counted)
+	colForm := linOfChars(colArg, 0, &counted)
 	// find the loop-carried offset phi among the symbols of colForm
 	var ophi *ssa.Phi
 	for _, in := range sphi.Block().Instrs {
 		if ph, ok := in.(*ssa.Phi); ok && ph != sphi {
 			if _, used := colForm[symName(ph)]; used {
 				if b, ok := ph.Type().Underlying().(*types.Basic); ok && b.Info()&types.IsInteger != 0 {
-					ophi = ph
+					// the accumulator: carried around the loop as itself plus something (a position found anew on every
+					// iteration, as in `for i := strings.Index(..); i >= 0; i = strings.Index(..)`, is not one)
+					acc := false
+					for _, e := range ph.Edges {
+						if e != ssa.Value(ph) && linOfChars(e, 0, &counted)[symName(ph)] == 1 {
+							acc = true
+						}
+					}
+					if acc {
+						ophi = ph
+					}
 				}
 			}
 		}
@@ -314,7 +324,25 @@ func runC07Accum(c *Ctx) {
 	for b := range inLoop {
 		loopBlocks[fmt.Sprintf("@%d", b.Index)] = true
 	}
+	// the accumulator may also carry the base itself (col += ... instead of col + offset): then its value at loop entry
+	// is part of the base
+	entryForm := linForm{}
+	for i := range ophi.Edges {
+		if !inLoop[ophi.Block().Preds[i]] {
+			entryForm = linOf(ophi.Edges[i], 0)
+		}
+	}
+	rest = linAdd(rest, entryForm, 1)
 	baseOK := true
+	baseSyms := 0
+	for k, v := range rest {
+		if v != 0 && k != "1" {
+			baseSyms += v
+		}
+	}
+	if baseSyms != 1 {
+		baseOK = false // the scalar's column is counted exactly once
+	}
 	for k, v := range rest {
 		if v == 0 || k == "1" || strings.HasPrefix(k, "Pos.Col(") {
 			continue
@@ -339,6 +367,8 @@ func runC07Accum(c *Ctx) {
 			of := linOf(ophi.Edges[i], 0)
 			if _, isParam := e.(*ssa.Parameter); isParam && of.String() == "0" {
 				c.ok("(*RuleExpression).checkExprsIn|start of scan", sphi.Pos(), "offset 0 with the whole scalar")
+			} else if isParam && baseOK {
+				c.ok("(*RuleExpression).checkExprsIn|start of scan", sphi.Pos(), "the accumulated column starts at the base column with the whole scalar")
 			} else {
 				c.bad("(*RuleExpression).checkExprsIn|start of scan", sphi.Pos(), "the scan does not start with offset 0 on the whole scalar text: offset="+of.String())
 			}
@@ -471,6 +501,8 @@ func runC07Quote(c *Ctx) {
 	}
 	for _, s := range []site{
 		{"checkExprsIn", "(*RuleExpression).checkSemantics", 3},
+		{"checkExprsIn", "(*RuleExpression).exprError", 3},                // when the helper that parses is merged into the scan
+		{"checkExprsIn", "(*RuleExpression).checkSemanticsOfExprNode", 3}, // likewise
 		{"checkIfCondition", "(*RuleExpression).exprError", 3},
 		{"checkIfCondition", "(*RuleExpression).checkSemanticsOfExprNode", 3},
 		{"checkIfCondition", "(*RuleExpression).checkSemantics", 3},
@@ -485,6 +517,7 @@ func runC07Quote(c *Ctx) {
 			v := call.Common().Args[s.idx]
 			// descend through additions to the phi selecting between Col and Col+1
 			var phi *ssa.Phi
+			seenPhi := map[*ssa.Phi]bool{}
 			var find func(v ssa.Value, d int)
 			find = func(v ssa.Value, d int) {
 				if d > 8 || phi != nil {
@@ -492,6 +525,10 @@ func runC07Quote(c *Ctx) {
 				}
 				switch x := v.(type) {
 				case *ssa.Phi:
+					if seenPhi[x] {
+						return
+					}
+					seenPhi[x] = true
 					forms := map[string]bool{}
 					for _, e := range x.Edges {
 						forms[linOf(e, 0).String()] = true
@@ -504,6 +541,11 @@ func runC07Quote(c *Ctx) {
 					}
 					if hasCol && len(x.Edges) == 2 {
 						phi = x
+						return
+					}
+					// a column carried around the loop over the placeholders: its value at loop entry holds the base
+					for _, e := range x.Edges {
+						find(e, d+1)
 					}
 				case *ssa.BinOp:
 					find(x.X, d+1)
